@@ -65,6 +65,10 @@ def run_shard(shard, ctx):
         if shard["slice"][0] == 0:
             for pad, ai in ((0, 0), (4095, 1)):
                 run_case({"kind": "positive", "len": (4 << 20) + 1, "pad": pad, "order": [3, 2, 1, 0], "aad": ai}, ctx)
+            # paddings of a whole block and more (the footer's padding field is 32 bits wide)
+            for ln, pad in ((0, 4096), (1, 4096), (4096, 4096), (100, 8192), (5, 7892), (4097, 12288), (33, 70000)):
+                for ai in (0, 1):
+                    run_case({"kind": "positive", "len": ln, "pad": pad, "order": [0, 1, 2, 3], "aad": ai}, ctx)
         # ciphertext lengths (payload + padding + 4096-byte footer block) of n x 4 MiB + r: the 512-byte crypto footer straddles
         # the boundary of a decrypt chunk for r = 1 .. 511
         CH = 4 << 20
